@@ -79,7 +79,7 @@ BUILTINS = {
     "ValueError", "TypeError", "RuntimeError", "KeyError", "AttributeError", "NotImplementedError",
     "ResourceWarning", "DeprecationWarning", "Exception", "ZeroDivisionError", "complex", "slice",
     "object", "map", "filter", "frozenset", "divmod", "pow", "id", "IndexError", "StopIteration",
-    "AssertionError", "UserWarning", "RuntimeWarning", "format", "vars", "dir", "hash", "issubclass",
+    "AssertionError", "UserWarning", "RuntimeWarning", "format", "vars", "dir", "hash", "issubclass", "property",
 }
 
 
@@ -615,7 +615,7 @@ class Interp:
                 self.exec_block(st.orelse)
             return
         items = self.concrete_items(it)
-        if items is not None and len(items) <= self.max_unroll:
+        if items is not None and len(items) <= (64 if isinstance(it, (VList, VTuple)) else self.max_unroll):  # an enumerated list / tuple: like a comprehension over it
             broke = False
             for x in items:
                 self.assign(st.target, x, st)
@@ -629,7 +629,49 @@ class Interp:
             if not broke:
                 self.exec_block(st.orelse)
             return
+        zs = getattr(it, "sources", None) if isinstance(it, VUnknown) and it.tag == "zip" else None
+        if zs and len(zs) > 1:
+            conc = [(k, self.concrete_items(s_)) for k, s_ in enumerate(zs) if not self.endless_iterator(s_)]
+            if len(conc) == 1 and conc[0][1] is not None and len(conc[0][1]) <= self.max_unroll and all(self.endless_iterator(s_) for k, s_ in enumerate(zs) if k != conc[0][0]):
+                # an enumerated source zipped with iterator objects that never end: as many iterations as the source has items
+                kf, items_ = conc[0]
+                broke = False
+                for n_it, x in enumerate(items_):
+                    if n_it >= 2 and any(isinstance(s_, VUnknown) and getattr(s_, "elem", None) is None for k, s_ in enumerate(zs) if k != kf):
+                        raise Unsupported("zip with an endless source whose later elements are not modelled", st, self.site(st))
+                    tup = [x if k == kf else self.loop_elem(s_, n_it == 0, st) for k, s_ in enumerate(zs)]
+                    self.assign(st.target, VTuple(tup), st)
+                    try:
+                        self.exec_block(st.body)
+                    except BreakEx:
+                        broke = True
+                        break
+                    except ContinueEx:
+                        continue
+                if not broke:
+                    for s_ in zs[:kf]:
+                        self.loop_elem(s_, False, st)  # asked once more before the enumerated source ended the loop
+                    self.exec_block(st.orelse)
+                return
         self.summarise_loop(st, it)
+        # zip() asks its sources from left to right and stops at the first that is exhausted: an iterator object standing to
+        # the left of the source that ends the loop has by then been advanced once more
+        srcs = getattr(it, "sources", None) if isinstance(it, VUnknown) and it.tag == "zip" else None
+        if srcs:
+            fin = [k for k, s_ in enumerate(srcs) if not self.endless_iterator(s_)]
+            if fin:
+                for s_ in srcs[:fin[0]]:
+                    if self.endless_iterator(s_):
+                        self.loop_elem(s_, False, st)
+
+    def endless_iterator(self, v):
+        """An object following the iterator protocol whose __next__ never raises (StopIteration): it ends no loop."""
+        if isinstance(v, VUnknown) and getattr(v, "endless", False):
+            return True  # itertools.repeat(x), chain(..., repeat(x)), count()
+        if not isinstance(v, VObj) or v.inst.cls is None:
+            return False
+        nx = v.inst.cls.find_method("__next__")
+        return nx is not None and v.inst.cls.find_method("__iter__") is not None and not any(isinstance(n, ast.Raise) for n in ast.walk(nx.node))
 
     def run_generator(self, gen, on_yield, node, scope=None):
         if gen.started:
@@ -728,6 +770,8 @@ class Interp:
             m = it.inst.cls.find_method("__iter__") if it.inst.cls else None
             if m is not None:
                 r = self.call_method(it, "__iter__", [], {}, st)
+                if isinstance(r, VObj) and r.inst.cls is not None and r.inst.cls.find_method("__next__") is not None:
+                    return self.call_method(r, "__next__", [], {}, st)  # iterator protocol: one __next__ per iteration
                 return self.loop_elem(r, first, st)
             return VUnknown("elem@%s" % sid, "unknown")
         raise Unsupported("iteration over %r" % (it,), st, self.site(st))
@@ -751,10 +795,10 @@ class Interp:
         self.loops.append(info)
         # ---- first iteration: real pre-loop values
         broke = False
-        self.assign(st.target, self.loop_elem(it, True, st), st)
         snap_terms_before = {o: o.term for o in self.all_tobjs}
         list_before = {id(o): (o, list(o.items) if o.items is not None else None) for o in self.all_lists}
         ne0 = len(self.effects)
+        self.assign(st.target, self.loop_elem(it, True, st), st)  # (an iterator object's __next__ may itself change tensors)
         try:
             self.exec_block(st.body)
         except BreakEx:
@@ -1097,11 +1141,14 @@ class Interp:
         if concrete:
             items = {}
             unknown = False
+            from .values import dict_key
+
             for k, v in zip(keys, vals):
-                ok, c = const_of(k)
+                ok, c = dict_key(k)
                 if ok:
                     items[c] = v
                 else:
+                    items[c] = v  # a symbolic key: the same abstract key a later subscript with the same value produces
                     unknown = True
             d = self.new_dict(items)
             d.obj.extra_unknown = unknown
@@ -1162,6 +1209,18 @@ class Interp:
             kw = dict(f.kwargs)
             kw.update(kwargs)
             return self.call_value(f.func, list(f.args) + list(args), kw, node)
+        if isinstance(f, VObj) and f.inst.cls is None and getattr(f.inst, "ext", None) == "collections.namedtuple":
+            fields = f.inst.attrs["fields"]
+            vals = list(args) + [None] * (len(fields) - len(args))
+            if len(args) > len(fields) or any(k not in fields for k in kwargs):
+                raise RaiseEx("TypeError", self.site(node), "namedtuple arguments", True)
+            for k, v in kwargs.items():
+                vals[fields.index(k)] = v
+            if any(v is None for v in vals):
+                raise RaiseEx("TypeError", self.site(node), "namedtuple: missing field", True)
+            t = VTuple(vals)
+            t.fields = list(fields)
+            return t
         if isinstance(f, VObj):
             if f.inst.cls is not None and f.inst.cls.find_method("__call__"):
                 return self.call_method(f, "__call__", args, kwargs, node)
@@ -1217,6 +1276,18 @@ class Interp:
                         args[a] = self.ops.tensor_method(self, args[a], "unsqueeze", [VConst(0)], {}, node)
                 elif a < len(args) and isinstance(args[a], VUnknown):
                     pass
+        if func.qualname not in self.stubs and func.cls is not None and fv.self_val is not None and self.stubs:
+            # a rule that replaces a base class's method by its summary means "this object's method of that name": an override
+            # of the summarised method (whether it delegates to the base or restates it) is the same boundary
+            for c_ in func.cls.in_repo_mro()[1:]:
+                m_ = c_.methods.get(func.name)
+                if m_ is not None and m_.qualname in self.stubs:
+                    try:
+                        self.bind(m_, args, kwargs, node)
+                    except RaiseEx:
+                        break  # the override's own signature differs: analyse its body
+                    func = m_
+                    break
         if func.qualname in self.stubs:
             env = self.bind(func, args, kwargs, node)
             result = self.stubs[func.qualname](self, func, env, node)
@@ -1243,6 +1314,7 @@ class Interp:
         call_site = self.site(node) if self.frames else "<entry>"
         fr = Frame(func, func.module, env, self_cls=cls, closure=fv.closure)
         self.frames.append(fr)
+        callers = tuple(self.stack)
         self.stack.append(func.qualname)
         rec = [func.qualname, list(args), dict(kwargs), call_site, None, dict(env)]
         rec_args = {k: snapshot_terms(self, v) for k, v in env.items()}
@@ -1261,6 +1333,7 @@ class Interp:
         rec[4] = ret
         rec.append(snapshot_terms(self, ret))
         rec.append(rec_args)
+        rec.append(callers)  # [8]: the functions on the stack when the call was made (outermost first)
         return ret
 
     def call_lambda(self, fv, args, kwargs, node):
@@ -1429,6 +1502,8 @@ class Interp:
             if attr == "__name__":
                 return VConst(base.cls.name)
             raise RaiseEx("AttributeError", self.site(node), "class %s has no %s" % (base.cls.name, attr), True)
+        if isinstance(base, VTuple) and attr in (getattr(base, "fields", None) or ()):
+            return base.items[base.fields.index(attr)]  # a namedtuple's field
         if isinstance(base, VFunc):
             if attr == "__name__":
                 return VConst(base.func.name if base.func else "<lambda>")
@@ -1440,8 +1515,62 @@ class Interp:
             return u
         return VBound(base, attr)
 
+    def class_attr_value(self, owner, attr, expr):
+        """Value of a class attribute, evaluated once per interpretation (a descriptor object keeps its identity and what
+        __set_name__ stored on it)."""
+        cache = self.__dict__.setdefault("_class_attr_cache", {})
+        key = (owner.qualname if hasattr(owner, "qualname") else owner.name, attr)
+        if key not in cache:
+            fr = Frame(None, owner.module, {})
+            self.frames.append(fr)
+            try:
+                v = self.eval(expr)
+            finally:
+                self.frames.pop()
+            cache[key] = v
+            if isinstance(v, VObj) and v.inst.cls is not None:
+                sn = v.inst.cls.find_method("__set_name__")
+                if sn is not None:
+                    self.call_function(VFunc(sn, v), [VClass(owner), VConst(attr)], {}, None)
+        return cache[key]
+
+    def descriptor_of(self, cls, attr, need):
+        """The descriptor object bound to `attr` on the class (a repo instance whose class defines `need`), or None."""
+        ca = cls.find_class_attr(attr) if cls is not None else None
+        if ca is None:
+            return None
+        if not isinstance(ca[1], ast.Call):
+            return None  # only a constructed object can be a descriptor
+        v = self.class_attr_value(ca[0], attr, ca[1])
+        if isinstance(v, VObj) and v.inst.cls is not None and v.inst.cls.find_method(need) is not None:
+            return v
+        if isinstance(v, VObj) and v.inst.cls is None and getattr(v.inst, "ext", None) == "builtins.property":
+            return v  # property(fget, fset): a data descriptor
+        return None
+
+    def _descr_get(self, d, objv, cls, node):
+        if d.inst.cls is None:  # builtins.property
+            fget = d.inst.attrs.get("fget")
+            if fget is None or (isinstance(fget, VConst) and fget.value is None):
+                raise RaiseEx("AttributeError", self.site(node), "unreadable attribute", True)
+            return self.call_value(fget, [objv], {}, node)
+        return self.call_function(VFunc(d.inst.cls.find_method("__get__"), d), [objv, VClass(cls)], {}, node)
+
+    def _descr_set(self, d, objv, v, node):
+        if d.inst.cls is None:  # builtins.property
+            fset = d.inst.attrs.get("fset")
+            if fset is None or (isinstance(fset, VConst) and fset.value is None):
+                raise RaiseEx("AttributeError", self.site(node), "can't set attribute", True)
+            self.call_value(fset, [objv, v], {}, node)
+            return
+        self.call_function(VFunc(d.inst.cls.find_method("__set__"), d), [objv, v], {}, node)
+
     def obj_attr(self, objv, attr, node, skip_getattr=False):
         inst = objv.inst
+        if inst.cls is not None and attr in inst.cls.all_class_attr_names():
+            d = self.descriptor_of(inst.cls, attr, "__get__")
+            if d is not None and (d.inst.cls is None or d.inst.cls.find_method("__set__") is not None or attr not in inst.attrs):
+                return self._descr_get(d, objv, inst.cls, node)
         if attr in inst.attrs and not (inst.cls and inst.cls.find_prop(attr)):
             return inst.attrs[attr]
         cls = inst.cls
@@ -1533,6 +1662,11 @@ class Interp:
                         self.call_function(VFunc(p["set"], base), [v], {}, node)
                         return
                     raise RaiseEx("AttributeError", self.site(node), "can't set attribute %s" % attr, True)
+                if attr in cls.all_class_attr_names():
+                    d = self.descriptor_of(cls, attr, "__set__")
+                    if d is not None:
+                        self._descr_set(d, base, v, node)
+                        return
             # nn.Parameter registration order
             if isinstance(v, VTens) and v.obj.is_parameter and not v.view:
                 order = inst.attrs.setdefault("__param_order__", [])
@@ -1775,6 +1909,12 @@ def _count_term(it):
         a, b, c = num_term(it.start), num_term(it.stop), num_term(it.step)
         if a is not None and b is not None and c is not None:
             return ("range", a, b, c)
+    if isinstance(it, VUnknown) and it.tag == "zip" and getattr(it, "sources", None):
+        # the loop ends with the first exhausted source: when exactly one source can end it, its count is the loop's
+        cs = [_count_term(s) for s in it.sources if not (getattr(s, "endless", False) or (isinstance(s, VObj) and s.inst.cls is not None and s.inst.cls.find_method("__next__") is not None
+                                                          and not any(isinstance(n, ast.Raise) for n in ast.walk(s.inst.cls.find_method("__next__").node))))]
+        if len(cs) == 1 and len(it.sources) > 1:
+            return cs[0]
     if isinstance(it, VUnknown):
         return ("iter", it.tag)
     return ("iter", type(it).__name__)
